@@ -37,12 +37,16 @@ def guarded(fn: Callable[[Any], Any], item: Any, seconds: float) -> Any:
         signal.signal(signal.SIGALRM, old)
 
 
+_MAIN_PID = os.getpid()
+
+
 def _chunk(args):
     fn, items, seconds = args
-    try:
-        resource.setrlimit(resource.RLIMIT_AS, (6 << 30, 6 << 30))
-    except Exception:
-        pass
+    if os.getpid() != _MAIN_PID:      # never limit the main process (it starts JVMs)
+        try:
+            resource.setrlimit(resource.RLIMIT_AS, (6 << 30, 6 << 30))
+        except Exception:
+            pass
     return [guarded(fn, it, seconds) for it in items]
 
 
